@@ -112,6 +112,24 @@ struct Rig {
     cf: Vec<Reference<dyn Getter<f32, E>>>,
     cb: Vec<Reference<dyn Getter<bool, E>>>,
     cq: Vec<Reference<dyn Getter<Quantity, E>>>,
+    /// header `clockref` != 0: ONE Reference per scripted clock, shared by every node that reads it (and by
+    /// the harness, which can then hold a shared borrow of the clock across a read of a node)
+    cc: Vec<Reference<dyn TimeGetter<E>>>,
+}
+
+/// One shared Reference to a scripted clock: 1 Rc<RefCell>, 3 Arc<RwLock> (both tell a shared borrow from
+/// an exclusive one).
+fn shared_clock(mode: i64, c: SimClock) -> Reference<dyn TimeGetter<E>> {
+    #[cfg(any(feature = "v_libm", feature = "v_micromath"))]
+    let mode = if mode > 1 { 1 } else { mode };
+    match mode {
+        #[cfg(not(any(feature = "v_libm", feature = "v_micromath")))]
+        3 => {
+            let a: std::sync::Arc<std::sync::RwLock<dyn TimeGetter<E>>> = std::sync::Arc::new(std::sync::RwLock::new(c));
+            Reference::from_arc_rw_lock(a)
+        }
+        _ => dyn_time(c),
+    }
 }
 
 /// One shared Reference to a leaf sensor: 1 Rc<RefCell>, 2 Arc<Mutex> (not re-entrant: a combinator that
@@ -212,6 +230,8 @@ fn build_generic<T: Payload>(rig: &Rig, spec: &NodeSpec) -> Option<Reference<dyn
         if spec.clock >= 100 {
             let leaf = <f32 as Payload>::slot(rig, &format!("f{}", (spec.clock - 100) % NF)).expect("leaf");
             dyn_time(TimeGetterFromGetter::<f32, dyn Getter<f32, E>, E>::new(leaf))
+        } else if !rig.cc.is_empty() {
+            rig.cc[spec.clock % NC].clone()
         } else {
             dyn_time(rig.ck[spec.clock % NC].clock())
         }
@@ -583,7 +603,13 @@ pub fn execute(plan: &Plan, ctx: &mut Ctx) {
         cf: Vec::new(),
         cb: Vec::new(),
         cq: Vec::new(),
+        cc: Vec::new(),
     };
+    let clockref = plan.get("clockref");
+    if clockref != 0 {
+        rig.cc = rig.ck.iter().map(|h| shared_clock(clockref, h.clock())).collect();
+        ctx.count("reach.shared_clock_references");
+    }
     let leafref = plan.get("leafref");
     if leafref != 0 {
         rig.cf = rig.lf.iter().map(|h| shared_leaf(leafref, h.sensor())).collect();
@@ -784,10 +810,29 @@ pub fn execute(plan: &Plan, ctx: &mut Ctx) {
                 }
             };
             if twice {
-                let again = match out_ty(&spec.kind) {
+                // the second read happens while the caller itself is looking at the node's leaves and clocks
+                // (a shared borrow of every shared leaf / clock Reference that can tell shared from exclusive
+                // is alive): reading is a shared use of the inputs, so it must work and return the same
+                let holdable = |m: i64| m == 1 || m == 3;
+                let hold_f: Vec<_> = if holdable(leafref) { rig.cf.iter().map(|r| r.borrow()).collect() } else { Vec::new() };
+                let hold_b: Vec<_> = if holdable(leafref) { rig.cb.iter().map(|r| r.borrow()).collect() } else { Vec::new() };
+                let hold_q: Vec<_> = if holdable(leafref) { rig.cq.iter().map(|r| r.borrow()).collect() } else { Vec::new() };
+                let hold_c: Vec<_> = if holdable(clockref) { rig.cc.iter().map(|r| r.borrow()).collect() } else { Vec::new() };
+                if !hold_f.is_empty() || !hold_c.is_empty() {
+                    ctx.count("reach.read_while_inputs_borrowed");
+                }
+                let again = guarded(|| match out_ty(&spec.kind) {
                     Ty::F => norm(&rig.nf[ni].as_ref().unwrap().borrow().get()),
                     Ty::B => norm(&rig.nb[ni].as_ref().unwrap().borrow().get()),
                     Ty::Q => norm(&rig.nq[ni].as_ref().unwrap().borrow().get()),
+                });
+                drop((hold_f, hold_b, hold_q, hold_c));
+                let again = match again {
+                    Ok(a) => a,
+                    Err(p) => {
+                        ctx.violate(&plan.prop, "panic_while_inputs_borrowed", base(&spec.kind), format!("op {}: get() of node {} ({}) while shared borrows of its leaves and clocks are alive panicked: {:?} at {}", oi, ni, spec.kind, p.msg, p.short_loc()));
+                        return;
+                    }
                 };
                 if again != got {
                     ctx.violate("C02", "read_stability", base(&spec.kind), format!("op {}: node {} ({}) returned {} and then {}", oi, ni, spec.kind, got.show(), again.show()));
@@ -1270,6 +1315,7 @@ pub fn gen_c02(prop: &str, tier: Tier, rng: &mut Rng, seed: u64, run: u64) -> Pl
     // how the nodes reach the leaves: a handle of their own each (0), or one shared Reference per leaf
     // behind an Rc (1), a Mutex (2) or an RwLock (3)
     plan.set("leafref", *rng.pick(&[0, 0, 0, 0, 0, 1, 2, 2, 3, 3]));
+    plan.set("clockref", *rng.pick(&[0, 0, 1, 1, 3]));
     let steps = rng.range(1, if tier == Tier::Quick { 12 } else { 30 });
     let rate = *rng.pick(&[0.0, 0.1, 0.3, 0.5]);
     let extreme = rng.chance(0.15) && !has_expirer;
